@@ -412,4 +412,21 @@ def EnumOk (ns : List Seg) (v : Seg) (observed : List Char) : Prop := observed =
 instance (ns : List Seg) (v : Seg) (o : List Char) : Decidable (EnumOk ns v o) := by
   unfold EnumOk; exact inferInstance
 
+/-- the declaration that counts for enum `name` in namespace path `p`: the first one processed -/
+def firstDecl (defs : List EnumDecl) (p : List Seg) (name : Seg) : Option EnumDecl :=
+  defs.find? fun d => splitDots d.ns = p ∧ d.name = name
+
+/-- no declared namespace has the enum's own path as a prefix (C++ could not have both either) -/
+def notShadowed (defs : List EnumDecl) (p : List Seg) (name : Seg) : Bool :=
+  defs.all fun d => !(p ++ [name]).isPrefixOf (splitDots d.ns)
+
+/-- What the python expression `p₁.….pₖ.name.v` must render as in a query whose metadata makes the
+declarations `defs` (any number of enums, in any namespaces, in this processing order): stated
+on the declarations alone, not on the model's namespace table. `none` = the property does not
+oblige the translator to resolve it. -/
+def expectedEnum (defs : List EnumDecl) (p : List Seg) (name v : Seg) : Option (List Char) :=
+  match firstDecl defs p name with
+  | some d => if v ∈ d.values ∧ '.' ∉ v ∧ notShadowed defs p name then some (qualified p v) else none
+  | none => none
+
 end FaxVerif.C10
